@@ -696,10 +696,21 @@ func (c *FnCtx) elemAddr(ptr, idx string, elem types.Type) string {
 	if idx == "0" {
 		return ptr
 	}
-	if sz == 1 {
-		return app("+", ptr, idx)
+	if _, isLit := parseIntLit(idx); isLit || os.Getenv("ELKVC_NO_EADDR") != "" {
+		if sz == 1 {
+			return app("+", ptr, idx)
+		}
+		return app("+", ptr, app("*", fmt.Sprint(sz), idx))
 	}
-	return app("+", ptr, app("*", fmt.Sprint(sz), idx))
+	// symbolic index: address through a declared function so that quantified facts about
+	// slice elements have a usable trigger (arithmetic terms make poor E-matching patterns)
+	fn := fmt.Sprintf("eaddr%d", sz)
+	if !c.declSet[fn] {
+		c.declSet[fn] = true
+		c.decls = append(c.decls, fmt.Sprintf("(declare-fun %s (Int Int) Int)", fn),
+			fmt.Sprintf("(assert (forall ((p Int) (i Int)) (! (= (%s p i) (+ p (* %d i))) :pattern ((%s p i)))))", fn, sz, fn))
+	}
+	return app(fn, ptr, idx)
 }
 
 // alloc returns a fresh address range of n bytes (n an SMT term).
